@@ -90,7 +90,11 @@ func c19RaceRound(mix, round int) {
 		run(func() { time.Sleep(2 * time.Millisecond); s.Get(7) })
 	case 2:
 		run(func() { s.EstimatedSize(); s.Len(); s.Stats() })
-		run(func() { for i := 10; i < 20; i++ { s.Set(i, i, 1, 0) } })
+		run(func() {
+			for i := 10; i < 20; i++ {
+				s.Set(i, i, 1, 0)
+			}
+		})
 		run(func() { s.Get(1); s.Get(12) })
 	case 3:
 		run(func() { s.Close() })
